@@ -1,7 +1,7 @@
 (* C19 correspondence evaluator: runs the model `serve` (over the table and shapes translated in this run) on the
    cases the black-box harness executed against the running server and reports the disagreeing case numbers. *)
 From Coq Require Import String List Bool NArith.
-From OG Require Import C19.Model C19.Gen_Routes.
+From OG Require Import C19.Model C19.Gen_Routes C19.Privileges.
 Import ListNotations.
 Open Scope string_scope.
 Open Scope N_scope.
@@ -48,3 +48,10 @@ Definition open_now : list (string * string * string) :=
   map (fun r => (r_name r, r_method r, r_pattern r)) (open_routes shape_now routes).
 Definition unknown_prefixes_now : list string := map p_prefix (repair_prefixes prefixes).
 Definition known_prefixes_now : list string := map p_prefix (filter known_prefix prefixes).
+
+(* requirement list of a simple statement type from the (source-tied) table; an unknown type is treated as
+   administrator-only so that a missing row shows as a disagreement *)
+Definition req_stmt (ty stmt_db : string) : stmt :=
+  match required_of model_privs ty stmt_db with Some s => s | None => [RAdmin] end.
+(* a NoPrivileges entry asks for nothing: authorize_database answers true for it, so it is kept as is *)
+Definition req_stmt_nopriv (ty : string) : stmt := req_stmt ty "".
